@@ -301,6 +301,7 @@ static int batch(int argc, char **argv)
 			int efd = open(errpath, O_WRONLY | O_CREAT | O_TRUNC, 0644);
 			if (efd >= 0) { dup2(efd, 2); close(efd); }
 			if (pfd[1] != 3) { dup2(pfd[1], 3); close(pfd[1]); }
+			fcntl(3, F_SETFD, FD_CLOEXEC);     /* programs exec'ed by a case must not hold the result pipe open */
 			res_fd = 3;
 			int nfd = open("/dev/null", O_WRONLY); if (nfd >= 0) { dup2(nfd, 1); close(nfd); }
 			setpgid(0, 0);
